@@ -72,12 +72,14 @@ CHECKS = {
                  "Known finding F5 (parent-result vs stateless matcher under negations)."),
     },
     "C11": {
-        "text": ("Lean theorems (unbounded): the hard-link reset announces a link whose source is not in the view as a plain entry (reset_promotes), re-points "
-                 "later members to it (reset_relinks), leaves other entries alone (reset_keeps_plain). Correspondence: real Send over NewFilterFS(view) "
+        "text": ("Lean theorems (unbounded): CLOSURE of the hard-link reset - for every listing as a walk produces it (distinct non-empty paths, link names "
+                 "never naming an entry that is itself announced as a link), whichever group members the filter removed, every hard link of the reset "
+                 "listing names an earlier entry announced without link name (reset_closed, by an invariant over the memo); the reset keeps entries and "
+                 "order (reset_paths); one-step lemmas reset_promotes / reset_relinks / reset_keeps_plain and the step equations. Correspondence: real Send over NewFilterFS(view) "
                  "(hard-link groups straddling included/excluded paths) + Receive: STAT log vs filterWalk + reset model, executable closure check of link names, "
                  "destination = filtered view (C01 spec); Walk vs Open agreement on every regular file."),
-        "note": ("Trusted: Lean kernel + standard axioms; closure of link names over whole listings is checked by execution per case (linksClosed), the general "
-                 "theorem needs the canonical-link hypothesis of C09 and is not proved yet; FollowPaths and nested filter stacks are not generated yet. Known finding F5."),
+        "note": ("Trusted: Lean kernel + standard axioms; the canonical-listing hypothesis of reset_closed is what fs.Walk delivers (C09) and is checked by execution per case "
+                 "(linksClosed on the real STAT log); FollowPaths and nested filter stacks are not generated yet. Known finding F5."),
     },
     "C20": {
         "text": ("Lean theorems (unbounded) about the TRANSCRIBED generated code: unmarshalStat (marshalStat s) = ok s for every well-formed Stat "
